@@ -565,12 +565,43 @@ class C12(PropertyCheck):
     id = "C12"
     lean_modules = ["QipVerif.Props.C12"]
     drivers = ["drv_concat"]
-    theorems = []
-    technique = "Lean 4 proof (induction over the instruction list of a channel, exact rationals) + model/implementation correspondence"
-    level_text = ""
-    level_note = ""
-    trusted_base = []
-    assumptions = []
+    theorems = [
+        "QipVerif.C12.concatenate_channels",
+        "QipVerif.C12.grid_starts_at_zero_and_increases",
+        "QipVerif.C12.coefficient_length_fits",
+        "QipVerif.C12.discrete_channel_is_schedule",
+        "QipVerif.C12.scale_counterexample",
+        "QipVerif.C12.gap_counterexample",
+    ]
+    technique = "Lean 4 proof (refinement of the channel loop to a tolerance-free list function, induction over the instruction list, exact rationals) + model/implementation correspondence"
+    level_text = ("Lean 4 theorems over exact rationals, for every tolerance tau > 0, both first-pulse tests (shipped / repaired), every "
+                  "number of channels and instructions, every padding mode: under the explicit hypotheses Chain (instructions of a "
+                  "channel sorted by start, non-overlapping, well-formed waves with positive durations) and Sep (scale hypothesis: "
+                  "every idle gap is 0 or > step*tau; shipped test only: no later instruction is processed while less than step*tau "
+                  "is covered) _concatenate_pulses succeeds and equals compiledChannel per channel; every channel's grid starts at 0 "
+                  "and increases strictly (scalar, discrete and continuous pulses, mixed too); the coefficient length fits the grid "
+                  "for the channel's kind; for channels of scalar/discrete pulses the step function of the compiled arrays equals the "
+                  "scheduled function at every time t (instruction waveform inside its window, 0 elsewhere).  Without Sep the "
+                  "statement is refuted on the model by decide (scale_counterexample: durations [1e-9, 1e4] give grid "
+                  "[0,1e-9,0,1e4+1e-9]; gap_counterexample) and on the code by replay.  The model is tied to GateCompiler.compile / "
+                  "_concatenate_pulses by an exact correspondence on dyadic inputs spanning 2^-30..2^20 and to the spin-chain, "
+                  "cavity-QED and SC-qubit compilers to 1e-9.")
+    level_note = ("Proof under Sep; outside Sep the property is false (findings).  The sample-level statement for continuous channels "
+                  "is covered by the grid/length theorems and by the correspondence and oracle, see notes/C12.md for what is proved.  "
+                  "The scheduler (start times) is C11's model: the start times the real Scheduler returns and the permutation "
+                  "np.argsort returns are inputs of this model.  Trusted: Lean kernel (propext, Classical.choice, Quot.sound), "
+                  "np.linspace/np.arange/np.argsort/np.concatenate as modelled, the harness py/props/c12.py.")
+    trusted_base = [
+        "Lean 4.33 kernel; axioms propext, Classical.choice, Quot.sound",
+        "np.linspace(a,b,10) = a + i(b-a)/9, np.arange(a,stop,step) = a + i*step for i < ceil((stop-a)/step), np.argsort returns a "
+        "sorting permutation (taken from the run), np.concatenate (validated by the correspondence)",
+        "float arithmetic of the code is exact on the dyadic stream (multiples of 2^-30 below 2^23); step*1e-6 vs the rational tau: "
+        "cases whose outcome changes for tau*(1+-2^-20) are skipped",
+        "Scheduler.schedule (C11) supplies the start times",
+        "py/props/c12.py (harness, oracle on exact Fractions)",
+    ]
+    assumptions = ["instructions of one channel do not overlap (C11's no-overlap clause is refuted separately; such schedules are outside Chain)",
+                   "scale hypothesis Sep (explicit in every theorem)"]
     rule = ("case = (gate list with one synthetic instruction per gate: scalar / discrete / continuous waveform, dyadic times "
             "m*2^e, e in [-30,17]; schedule mode None/ASAP/ALAP) compiled by GateCompiler.compile and by the model fed with the "
             "start times the real Scheduler returned; non-trivial = at least one channel with two instructions or an idle gap; "
